@@ -72,14 +72,15 @@ Definition dstep (d : dworld) (o : op) : dworld :=
   end.
 Definition dense_run (d : dworld) (ops : list op) : dworld := fold_left dstep ops d.
 
-(* what the reading operations return, on the dense side *)
+(* what the reading operations return, on the dense side (the abandoned partial loop IterPart
+   and the joint iterators are not given a dense reading here: held iterators are treated in
+   ModelIt.v / PropsIt.v) *)
 Definition dout (d : dworld) (o : op) : option (list Z) :=
   match o with
   | At t i | ConstAt t i => Some [nth (Z.to_nat i) (dget d t) 0]
   | ReduceSum t => Some [fold_left Z.add (dget d t) 0]
   | Iterate t => Some (flat2 (nonzero (dget d t)))
   | IterFrom t i => Some (flat2 (filter (fun p => i <=? fst p) (nonzero (dget d t))))
-  | IterPart t m => Some (flat2 (firstn m (nonzero (dget d t))))
   | _ => None
   end.
 
